@@ -315,6 +315,10 @@ def generate(model: Model):
         pass
     try:
         mod, tree = _fresh("_merge")
+        for cdef in (x for x in tree.body if isinstance(x, ast.ClassDef) and x.name == "BroadcastJoin"):
+            for fn in (x for x in cdef.body if isinstance(x, ast.FunctionDef) and x.name == "_divisions"):
+                for r_ in (x for x in ast.walk(fn) if isinstance(x, ast.Return)):
+                    yield "mutant", "revert:broadcast-join-copies-divisions", "R06j", mod.rel, _splice(mod.source, r_.value, "other.divisions")
         for cdef in (x for x in tree.body if isinstance(x, ast.ClassDef) and x.name == "Merge"):
             for fn in (x for x in cdef.body if isinstance(x, ast.FunctionDef) and x.name == "_filter_passthrough_available"):
                 for st in (x for x in ast.walk(fn) if isinstance(x, ast.If) and ".right" in ast.unparse(x.test) and "_get_original_predicate_columns" in ast.unparse(x.test)):
